@@ -30,7 +30,7 @@ def gen(rng, n, tier="quick"):
         fault = None
         if rng.random() < 0.45 and scn["targets"]:
             tk = rng.choice(sorted(scn["targets"]))
-            fault = {"target": L.file_of(tk), "op_index": rng.randint(0, 5), "k": rng.choice([0, 1, 7, 40, 10 ** 6])}
+            fault = {"target": L.file_of(tk, scn), "op_index": rng.randint(0, 5), "k": rng.choice([0, 1, 7, 40, 10 ** 6])}
         for req, got, tags in _run_scenario(scn, fault):
             cases.append({"fam": NAME, "fn": "conform", "args": [req], "impl": got, "tags": tags, "scenario": scn, "fault": fault})
     for i in range(max(8, n // 5)):
@@ -106,7 +106,7 @@ def _cli_shape_impl(shape):
         import random
         scn = L.gen_scenario(random.Random(1), runs=1, allow_known=False)
         scn["truth"] = shape["truth"]
-        scn.update(body=None, wide=None, truth_edit=False, with_returns=False)
+        scn.update(body=None, wide=None, truth_edit=False, with_returns=False, files=None)
         scn["given"] = list(L.KINDS)
         scn["targets"] = {k: {"pre": "agreeing", "n_sur": 0, "position": "after", "trailing_newline": True, "sur_seed": 1, "members": 0}
                           for k in L.KINDS if k != shape["truth"]}
